@@ -379,6 +379,11 @@ class C17(Prop):
         for kind in kinds:
             for v in range(6 if thorough else 2):
                 yield {"k": "pure", "kind": kind, "v": v + (self.seed * 1000 if v >= 3 else 0)}
+        # after a call that took another object as its argument, receiver and argument go their own ways: each is then
+        # changed through its public in-place methods and the other one is re-observed
+        for kind in kinds:
+            for v in range(4 if thorough else 2):
+                yield {"k": "after", "kind": kind, "v": v}
         hs = self.rng.sample(self.hists, 3000 if thorough else 500)
         hk = ["Pauli", "PauliList", "PauliPolynomial", "CliffordMap", "StabilizerState", "CliffordGate", "CliffordCircuit"]
         for i, h in enumerate(hs):
@@ -435,6 +440,8 @@ class C17(Prop):
             return out
         if scn["k"] == "pure":
             return self._pure(scn, be, K)
+        if scn["k"] == "after":
+            return self._after(scn, be, K)
         if scn["k"] == "copy":
             rec = {"op": "copy", "kind": kind}
             how = scn.get("how", "copy")
@@ -620,6 +627,47 @@ def _pure(self, scn, be, K):
     return out
 
 
+def _after(self, scn, be, K):
+    kind, v = scn["kind"], scn["v"]
+    if kind == "MeasuringCircuit":
+        return []
+    im = [e for e in K.methods[kind] if e[1] == "inplace"]
+    out = []
+    for ent in K.methods[kind]:
+        if ent[1] == "argmut" or ent[0] in RANDOM_Q or not im:
+            continue
+        for ie in im[:3]:
+            rec = {"op": "after", "kind": kind, "meth": ent[0], "via": ie[0]}
+            try:
+                o, a, x = K.new(kind, v), K.new(kind, v + 1), K.aux(v)
+                be.seed(3)
+                try:
+                    ent[2](o, a, x)
+                except (NotImplementedError, ValueError):
+                    continue
+                a0v = val(a)
+                rec["a0"] = fz(a0v)
+                be.seed(4)
+                try:
+                    ie[2](o, K.new(kind, v + 2), K.aux(v + 1))       # the receiver moves on (fresh argument, fresh externals)
+                except (NotImplementedError, ValueError):
+                    pass
+                # (gate objects taken over by compose() are shared by design: maps they derive lazily later are masked)
+                rec["a1"] = fz(mask_unset(a0v, val(a)) if kind in LAZY else val(a))
+                o0v = val(o)
+                rec["o0"] = fz(o0v)
+                be.seed(5)
+                try:
+                    ie[2](a, K.new(kind, v + 2), K.aux(v + 1))       # ... and so does the former argument
+                except (NotImplementedError, ValueError):
+                    pass
+                rec["o1"] = fz(mask_unset(o0v, val(o)) if kind in LAZY else val(o))
+            except Exception as e:
+                rec["exc"] = _exc(e)
+            out.append(rec)
+    return out
+
+
 C17_pure = _pure
 
 
@@ -652,4 +700,5 @@ def mask_unset(b, a):
 
 C17._methods3 = _methods3
 C17._pure = _pure
+C17._after = _after
 PROP = C17
